@@ -31,14 +31,14 @@ func init() {
 			"named slice/map types get no flag (outside the statement: 'named scalars'); not generated",
 			"names falling into the open C19 finding are not generated here",
 		},
-		MinDistinct: map[string]int{"quick": 4000, "thorough": 100000},
+		MinDistinct: map[string]int{"quick": 8000, "thorough": 1000000},
 		MinCounters: map[string]map[string]int64{
 			"quick":    {"flags_given_and_compared": 15000, "leaves_expected_unset": 15000, "default_roundtrips_checked": 3000, "out_of_range_probes_rejected": 300, "repeated_flag_accumulations": 1500},
 			"thorough": {"flags_given_and_compared": 600000},
 		},
 		Plan: func(tier string) fw.Plan {
 			if tier == "thorough" {
-				return fw.Plan{Shards: 16, CasesPerShard: 12000, TimeoutSec: 3000}
+				return fw.Plan{Shards: 96, CasesPerShard: 30000, Parallel: 16, TimeoutSec: 3000}
 			}
 			return fw.Plan{Shards: 16, CasesPerShard: 1500, TimeoutSec: 600}
 		},
